@@ -6,5 +6,6 @@ CONSTANTS
   Alpha <- AlphaHeavy
   JitSet <- JSim
   MaxDepth = 12
+  ItemShapeTolerant = TRUE
 INVARIANT PropertyHolds
 CHECK_DEADLOCK FALSE
